@@ -356,6 +356,8 @@ inductive DotsErr where
   | dup | missing | invalid (c : Nat)
   deriving DecidableEq, Repr
 
+deriving instance DecidableEq for Except
+
 /-- loop state of parseDots: finished cells, and the cell under construction
     (`none` = `index == start`, nothing read for this cell yet) -/
 structure DState where
